@@ -309,9 +309,9 @@ done:
       flags |= ARES_CONN_STATE_WRITE;
     }
 
-    /* If using TCP and not all data was written (partial write), that means
-     * we need to also wait on a write event */
-    if (conn->flags & ARES_CONN_FLAG_TCP && ares_buf_len(conn->out_buf)) {
+    /* If not all data was written (partial write on TCP, or the socket would
+     * block), that means we need to also wait on a write event */
+    if (ares_buf_len(conn->out_buf)) {
       flags |= ARES_CONN_STATE_WRITE;
     }
 
